@@ -513,20 +513,25 @@ func main() {
 	engine.Main(&engine.Spec{
 		Prop:  "C27",
 		Level: "exploration",
-		Rule: fmt.Sprintf("quick: every sequence of exactly 3 inputs over a core alphabet of %[2]d REPL inputs (shorter histories are their prefixes); thorough: every sequence of exactly 3 inputs over the full alphabet of %[1]d inputs and every sequence of exactly 4 inputs over the core alphabet. "+
+		Rule: fmt.Sprintf("quick: every sequence of exactly 3 inputs over a core alphabet of %[2]d REPL inputs (shorter histories are their prefixes); thorough: every sequence of exactly 3 inputs over the full alphabet of %[1]d inputs and every sequence of exactly 4 inputs over the core alphabet without redefmeth and raise (%[3]d inputs). "+
 			"Alphabet: define/use/retype a local; define a method and a caller of it, call it through the caller, redefine it (same signature; new return type); define/reopen/use a class; define a constant; a class with an instance variable, reopened with a new instance variable; "+
 			"six inputs rejected after declaring a class/method/constant/local (failing in the type-definition, signature, method-body and expression phases); a run-time error after a side effect; a pure expression. "+
 			"Driven through the incremental checker + persistent VM thread exactly as repl.evaluate does; oracle (ii) the session without its rejected inputs observes the same, (i) each accepted input vs. a fresh batch run of all accepted inputs so far; "+
-			"a history is non-trivial when it mixes rejected and accepted inputs", len(alphabet), nCore),
+			"a history is non-trivial when it mixes rejected and accepted inputs", len(alphabet), nCore, nCore-len(notInH4)),
 		Assume: []string{"the session mirrors repl.evaluator.evaluate through the exported API it calls (checker.New, SetAdditionalAbortChecks, SetIncremental, CheckSourceBytecode, ClearErrors, vm.New, InterpretREPL, PrintError, ResetError)",
 			"method bodies compiled one at a time (MethodCheckConcurrencyLimit=1)",
 			"an input that raised at run time is represented in later batch programs by the statements it executed before the throw (it declares nothing)"},
 		CaseTimeout:      5 * time.Minute,
-		ThoroughDeadline: 28 * time.Minute,
+		QuickDeadline:    12 * time.Minute,
+		ThoroughDeadline: 45 * time.Minute,
 		Setup:            func(c *engine.Ctx) { elkrun.Init() },
 		Run:              run,
 	})
 }
+
+// notInH4: core inputs left out of the length-4 histories so that the thorough tier fits its budget on a loaded
+// machine (both are covered by every length-3 history over the full alphabet).
+var notInH4 = map[string]bool{"redefmeth": true, "raise": true}
 
 func enumerate(c *engine.Ctx, tag string, alpha []int, n int) {
 	prefix := make([]int, n-1)
@@ -567,7 +572,13 @@ func run(c *engine.Ctx) {
 		return
 	}
 	enumerate(c, "h3", all, 3)
-	enumerate(c, "h4", core, 4)
+	var core4 []int
+	for _, i := range core {
+		if !notInH4[alphabet[i].Name] {
+			core4 = append(core4, i)
+		}
+	}
+	enumerate(c, "h4", core4, 4)
 }
 
 // debugSession: C27_DEBUG=<file> runs the inputs of the file (separated by lines "---") as one REPL session and prints
